@@ -144,11 +144,12 @@ def addNotarized (s : St) (o : Nat) : St :=
     { s1 with block := blk,
               notarized := sortStable (fun a b => decide (weightKey (obj s1 a).rank < weightKey (obj s1 b).rank)) (nb ++ [o]) }
 
-/-- `UpdateNotarizedBlock`: every proposed entry with the hash becomes `b`; the notarized loop is
-`r.notarizedBlocks[i] = nb` — it stores the entry it has just read, i.e. nothing changes. -/
+/-- `UpdateNotarizedBlock`: every proposed entry and every notarized entry with the hash becomes `b`
+(`r.notarizedBlocks[i] = b` since repo commit 1ab8ea2; before it the loop stored the entry it had just read — finding
+C35:update-does-not-replace). -/
 def updateNotarized (s : St) (o : Nat) : St :=
   { s with proposed := s.proposed.map (fun p => if (obj s p).hash = (obj s o).hash then o else p),
-           notarized := s.notarized.map (fun p => if (obj s p).hash = (obj s o).hash then p else p) }
+           notarized := s.notarized.map (fun p => if (obj s p).hash = (obj s o).hash then o else p) }
 
 /-- `GetHeaviestNotarizedBlock`. -/
 def heaviest (s : St) : Option Nat := s.notarized.head?
